@@ -30,7 +30,7 @@ fn main() {
         "total" => total::parent(inp, outp),
         "total_child" => total::child(inp, outp, args.get(4).and_then(|x| x.parse().ok()).unwrap_or(0)),
         "ffi" => ffi::parent(inp, outp),
-        "ffi_child" => ffi::child(inp, outp, args.get(4).and_then(|x| x.parse().ok()).unwrap_or(0)),
+        "ffi_child" => ffi::child(inp, outp, args.get(4).and_then(|x| x.parse().ok()).unwrap_or(0), args.get(5).and_then(|x| x.parse().ok()).unwrap_or(usize::MAX)),
         "c13" => util::run_cases(inp, outp, c13::run),
         "units" => util::run_cases(inp, outp, c13::run_units),
         "radix" => util::run_cases(inp, outp, radix::run),
